@@ -1,7 +1,7 @@
 SPECIFICATION Spec
 CONSTANTS
   MaxHist = 4
-  AsIs = {"dhtstart"}
+  AsIs = {"magnetgone"}
 INVARIANT TypeOK
 INVARIANT InvSources
 INVARIANT InvDht
